@@ -71,15 +71,26 @@ def install():
         def _connect(self):
             pass
 
-        def notify_done(self, transfer_id):
+        def notify_done(self, transfer_id, *a, **k):
             w = _current[0]
             w.on_notify_done(self, transfer_id)
-            return super().notify_done(transfer_id)
+            return super().notify_done(transfer_id, *a, **k)
 
-        def notify_job_complete(self, transfer_id):
+        def notify_job_complete(self, transfer_id, *a, **k):
             w = _current[0]
             w.jobs_completed[transfer_id] = w.jobs_completed.get(transfer_id, 0) + 1
-            return super().notify_job_complete(transfer_id)
+            return super().notify_job_complete(transfer_id, *a, **k)
+
+        def notify_cancel_all_in_progress(self, *a, **k):
+            # the interval in which the library looks at each transfer: one that
+            # became done before it began need not be cancelled, one that is
+            # still unfinished after it returned must be
+            w = _current[0]
+            w.cancel_all_spans.append([w.sim.stamp(), None])
+            try:
+                return super().notify_cancel_all_in_progress(*a, **k)
+            finally:
+                w.cancel_all_spans[-1][1] = w.sim.stamp()
 
     class FakeManager:
         def start(self, initializer=None):
@@ -120,6 +131,7 @@ class PPWorld:
         self.monitor = None
         self.manager_shutdown = False
         self.cancel_events = []
+        self.cancel_all_spans = []
         self.shutdown_return = None
         self.driver_exc = None
         self.config = None
@@ -248,6 +260,9 @@ class PPWorld:
         try:
             v = t['future'].result()
             t['outcome'] = ('ok', v, self.sim.stamp())
+            # what the destination holds at the moment success is reported
+            cur = self.fs.files.get(t['path'])
+            t['dest_at_result'] = bytes(cur) if cur is not None else None
         except KeyboardInterrupt:
             raise
         except BaseException as e:   # noqa
@@ -411,6 +426,12 @@ def evaluate(w):
             w.violation('C19', 'success-despite-failure',
                         'download %d returned normally although %r fired'
                         % (tid, [repr(x)[:50] for x in fired_fatal[tid]]))
+        if oc[0] == 'ok' and 'dest_at_result' in t and t['dest_at_result'] != t['expect']:
+            w.violation('C02', 'content-differs',
+                        'process pool download %d: when result() returned normally the file '
+                        'held %r, object is %r' % (tid, _short(t['dest_at_result']),
+                                                   _short(t['expect'])),
+                        {'variant': 'processpool-at-result'})
         if oc[0] == 'ok':
             cur = w.fs.files.get(t['path'])
             cur = bytes(cur) if cur is not None else None
@@ -442,7 +463,15 @@ def evaluate(w):
                         'download %d failed with %r without any fault or cancel' % (tid, oc[1]))
         # Ctrl-C in the with-block cancels the unfinished ones
         c = t['cancel']
-        if c is not None and c['how'] == 'with_kbi' and not c['done']:
+        # (a download is "unfinished" for this purpose if its done notification
+        # came only after the library's cancel-all pass had returned: the
+        # harness's own look at done() just before raising Ctrl-C is not atomic
+        # with that pass, whatever scheduling points the library has in between)
+        span = w.cancel_all_spans[0] if w.cancel_all_spans else None
+        done_at = min([e.get('stamp', 0) for e in evs], default=None)
+        unfinished = span is not None and span[1] is not None and \
+            (done_at is None or done_at > span[1])
+        if c is not None and c['how'] == 'with_kbi' and not c['done'] and unfinished:
             if oc[0] != 'exc' or not (isinstance(oc[1], CancelledError) or fired_fatal.get(tid)):
                 w.violation('C19', 'ctrl-c-did-not-cancel',
                             'download %d was unfinished at Ctrl-C but outcome is %r'
